@@ -401,6 +401,12 @@ def c04(tier, seed):
         for pos in range(0, n + 1):
             for op in ("builder_abandon", "intrusive_abandon"):
                 scns.append({"case": op, "prop": "C04", "ety": "tk", "steps": [{"op": op, "n": n, "arg": pos}], "d": {"op": op, "n": n, "position": pos}})
+            if pos <= n:
+                for op in ("builder_extend", "intrusive_extend"):
+                    # the source ends after `pos` items, or panics at call index `pos`
+                    for tail in ([0], [2]):
+                        scns.append({"case": op, "prop": "C04", "ety": "tk", "steps": [{"op": op, "n": n, "okind": "arr", "script": [1] * pos + tail, "hint": [0, -1]}],
+                                     "d": {"op": op, "n": n, "items": pos, "then": "none" if tail == [0] else "panic"}})
             scns.append({"case": "consumer_abandon", "prop": "C04", "ety": "tk", "steps": [_mk("arr", n), {"op": "consumer_abandon", "recv": [1], "arg": pos}],
                          "d": {"op": "consumer_abandon", "n": n, "position": pos}})
     c.cov["exhaustive"] = True
